@@ -77,7 +77,7 @@ CHECKS["C04"] = dict(
          "and one encoder entry point, delivered byte by byte without faults. non-trivial = some payload byte or the CRC needed escaping; "
          "distinct = distinct hash of the (byte, receiver status) sequence",
     simtime_units="bytes delivered over the simulated link",
-    probes=["crc_is_marker", "all_bytes_escaped", "empty_payload", "empty_iovec_piece", "max_expansion", "payload_256_or_more", "exhaustive_block", "encoders_overlapped"],
+    probes=["crc_is_marker", "all_bytes_escaped", "empty_payload", "empty_iovec_piece", "max_expansion", "payload_256_or_more", "exhaustive_block", "encoders_overlapped", "receiver_object_relocated_in_mid_traffic", "bytes_handed_over_as_another_integer_type"],
     assumptions=["receive buffer of at least n+2 bytes (the property's 'large enough buffer')", "caller-supplied encoder output buffers are 2n+4 bytes"],
 )
 CHECKS["C05"] = dict(
